@@ -202,6 +202,45 @@ def _facts():
                if a.arg == 'thres']
         return {'coincidenceThreshold': thr[0]}
     group(['coincidenceThreshold'], g_coin)
+    def g_exchange_params():
+        """calculate_energy_exchange: are the three stored parameters written only where the
+        histogram is (re)computed, i.e. inside `if self._energy_exchange_etc is None or recalculate`?"""
+        f = func(FAST, 'calculate_energy_exchange', cls='DirectionalRadiosityFast')
+        names = {'_etc_time_resolution', '_speed_of_sound', '_etc_duration'}
+
+        def stores(node):
+            out = set()
+            for n in ast.walk(node):
+                if isinstance(n, (ast.Assign, ast.AugAssign)):
+                    tg = n.targets if isinstance(n, ast.Assign) else [n.target]
+                    for t in tg:
+                        if isinstance(t, ast.Attribute) and dotted(t.value) == 'self' and t.attr in names:
+                            out.add(t.attr)
+            return out
+        guards = [n for n in ast.walk(f) if isinstance(n, ast.If)
+                  and 'self._energy_exchange_etc is None' in src(n.test) and 'recalculate' in src(n.test)]
+        if len(guards) != 1:
+            raise TranslationError('exchange: expected one `etc is None or recalculate` guard, found %d' % len(guards))
+        g = guards[0]
+        etc_in = any(isinstance(t, ast.Attribute) and t.attr == '_energy_exchange_etc'
+                     for n in ast.walk(ast.Module(body=g.body, type_ignores=[])) if isinstance(n, ast.Assign)
+                     for t in n.targets)
+        if not etc_in:
+            raise TranslationError('exchange: the guarded block does not store the histogram')
+        inside = set()
+        for st in g.body:
+            inside |= stores(st)
+        everywhere = stores(f)
+        if everywhere != names:
+            raise TranslationError('exchange: stored parameters are %s' % sorted(everywhere))
+        outside = set()
+        for st in f.body:
+            if st is not g:
+                outside |= stores(st)
+        for st in g.orelse:
+            outside |= stores(st)
+        return {'exchangeParamsStoredWithEtc': inside == names and not outside}
+    group(['exchangeParamsStoredWithEtc'], g_exchange_params)
     return facts, errors
 
 
@@ -232,7 +271,8 @@ def generate():
     for k in ('initRounding', 'exchangeRounding', 'collectRounding'):
         emit(k, lambda v, k=k: 'def %s : Rounding := .%s' % (k, v))
     for k in ('initUsesRoll', 'exchangeUsesRoll', 'collectUsesRoll', 'initGuarded',
-              'kangDelayRolls', 'kangDelayZeroesHead', 'bakeDistanceBeforeNormalise'):
+              'kangDelayRolls', 'kangDelayZeroesHead', 'bakeDistanceBeforeNormalise',
+              'exchangeParamsStoredWithEtc'):
         emit(k, lambda v, k=k: 'def %s : Bool := %s' % (k, b(v)))
     emit('bakeWallOf', lambda v: 'def bakeWallOf : Side := .%s' % v)
     emit('booleNum', lambda v: 'def booleNum : Nat := %d' % v)
